@@ -66,9 +66,9 @@ func init() {
 	for _, id := range []string{"C01", "C02", "C03", "C04", "C16", "C17", "C18", "C19"} {
 		reg(&propInfo{id: id, engine: "inproc", pkg: "snaps", level: "model_checking"})
 	}
-	for _, id := range []string{"C09", "C10"} {
-		reg(&propInfo{id: id, engine: "inproc", pkg: "snaps", level: "model_checking", envMatrix: updMatrix, shardsQ: 2, shardsT: 4})
-	}
+	// C09: "in every other mode no entry or file is removed" — other modes include the spellings a lenient boolean parser accepts
+	reg(&propInfo{id: "C09", engine: "inproc", pkg: "snaps", level: "model_checking", envMatrix: append(append([]string{}, updMatrix...), "1", "TRUE", "t"), shardsQ: 2, shardsT: 4})
+	reg(&propInfo{id: "C10", engine: "inproc", pkg: "snaps", level: "model_checking", envMatrix: updMatrix, shardsQ: 2, shardsT: 4})
 	reg(&propInfo{id: "C07", engine: "inproc", pkg: "snaps", level: "model_checking", envMatrix: updMatrix, shardsQ: 2, shardsT: 4, needsE3: true})
 	reg(&propInfo{id: "C05", engine: "inproc", pkg: "snaps", level: "model_checking", needsE3: true, envMatrix: updMatrixWide, shardsQ: 1, shardsT: 1})
 	reg(&propInfo{id: "C06", engine: "inproc", pkg: "snaps", level: "model_checking", racePass: true, shardsQ: 16})
